@@ -24,6 +24,9 @@ def check(tier='quick', seed=0):
         bands = [(0.01, 100.0), (0.05, 20.0)]
         if len(inband) > 3:
             bands += [(float(inband[1]), float(inband[-2])), (0.013, float(inband[-1])), (float(inband[0]), 77.0)]
+            # limits a hair on the EXCLUDING side of a required frequency (fmin slightly above, fmax slightly below one) and one ulp away
+            bands += [(float(inband[1]) * (1 + 1e-7), float(inband[-2]) * (1 - 1e-7)),
+                      (float(np.nextafter(inband[2], np.inf)), float(np.nextafter(inband[-3], -np.inf)))]
         coarse = [dict(), dict(every_x_freq=3), dict(input_freq=np.logspace(-2.5, 2.5, 13))]
         for (fmin, fmax), copt in itertools.product(bands, coarse):
             cases += 1
@@ -40,7 +43,11 @@ def check(tier='quick', seed=0):
                 return fail(clause='required frequencies are not split into exactly three disjoint groups', fmin=fmin, fmax=fmax, frequencies=bad.tolist(), groups=cnt[cnt != 1].tolist())
             fc = F.freq_compute
             if len(fc) and (fc.min() < fmin or fc.max() > fmax):
-                return fail(clause='computed frequency outside the requested band', fmin=fmin, fmax=fmax)
+                return fail(clause='computed frequency outside the requested band', fmin=fmin, fmax=fmax, coarse=str(copt),
+                            outside=[float(v) for v in fc[(fc < fmin) | (fc > fmax)]])
+            fco = F.freq_coarse
+            if not np.array_equal(fc, fco[(fco >= fmin) & (fco <= fmax)]):
+                return fail(clause='computed frequencies are not exactly the coarse frequencies inside the band', fmin=fmin, fmax=fmax, coarse=str(copt))
             if len(fc) < 2:
                 continue
             if copt and len(fc) < 4:
